@@ -110,6 +110,8 @@ func manyTxBlock(g *vlib.Rng, height uint32, target int, withWit bool) (txs []*r
 	return txs, w == target
 }
 
+var weightManyBuilt, weightManyAsked int
+
 func weightManyTxCases(g *vlib.Rng) {
 	sc := newScenario(g.U64(), nets[0], 12, 600)
 	type tc struct {
@@ -135,7 +137,11 @@ func weightManyTxCases(g *vlib.Rng) {
 		if c.withWit {
 			s.mut += "-wit"
 		}
+		weightManyAsked++
 		txs, ok := manyTxBlock(g, height, c.target, c.withWit)
+		if ok {
+			weightManyBuilt++
+		}
 		if !ok {
 			r.Hit("weight-many-case-not-constructed")
 			continue
